@@ -441,7 +441,7 @@ Definition dstep (nested : list byte -> bool) (d : decoder) (op : dop) : dres dv
   match op with
   | DTag => dmap (fun '(t, wt) => VTag t wt) (dec_tag d)
   | DScalar k => dmap VNum (dec_scalar d k)
-  | DBytes => dmap (fun b => VBytes b true) (dec_bytes d)
+  | DBytes => dmap (fun b => VBytes b (dfast d)) (dec_bytes d)      (* copy in safe mode, alias in fast mode *)
   | DString => dmap (fun b => VBytes b (dfast d)) (dec_bytes d)   (* copy in safe mode, alias in fast mode *)
   | DPacked k => dmap VList (dec_packed d k)
   | DNested => dmap VNested (dec_nested nested d)      (* the bytes handed to the nested Unmarshal *)
